@@ -53,7 +53,7 @@ CLAIMED['C02'] = dict(
 CLAIMED['C14'] = dict(
     text='Kernel-checked: read_size_exact (prediction = 1 + encoded normal response for FC 1-4, 23, every context and quantity, via the C04 '
          'refinement), expected_adu_exact (the ADU length the client computes = the length of the frame the server builds, RTU/ASCII/binary), '
-         'write_size_exact, diag_size_exact (every FC 8 sub-function class), exception_size; exhaustive run over all quantities '
+         'write_size_exact, diag_size_exact (every FC 8 sub-function class), exception_size; recv_exact_normal / recv_exact_exception (the model of _recv on a serial transport reads exactly the frame that arrives - min_size bytes, then the rest, nothing beyond the checksum - for a normal reply of the predicted length and for an exception reply whatever was predicted, any bytes may follow), recv_full_is_one_read + noteResp_self / noteResp_other / noteResp_nodup (the one designed exception: a unit is on the list that selects a one-piece read exactly when its latest attempt read nothing; other units are unaffected); exhaustive run over all quantities '
          'through the real server path and through a stub-transport client for RTU/ASCII/binary/TLS/socket framings; client histories (silent unit, local echo, retries answered by exception replies) must ask the port for exactly the bytes that arrive; EVERY history of up to four transactions over {silent, normal reply, exception 2, gateway exception 0x0B, 0x0B from a second unit} is run on every framing and every reply must be read exactly (the one read that directly follows a transaction the same unit left unanswered is made in one piece by design); the REAL ModbusSerialClient is run on a fake port with virtual time where the reply arrives whole or in two bursts.',
     design='6/C14', technique='Lean 4 arithmetic proof over the C04 refinement + exhaustive differential run',
     note='Per-framing overhead is checked on the real framers by the harness (transport stub returns exactly the bytes asked).')
